@@ -16,7 +16,7 @@
 
    Property text -> theorem:
    * "each ranking metric ... returns the value given by its documented definition applied to the
-     first k recommendations"       -> truncate_first_k, hit/precision/recall/recip/rbp/dcg/ndcg/
+     first k recommendations"       -> truncate_first_k, first_k_is_positional, hit/precision/recall/recip/rbp/dcg/ndcg/
                                        pop_eq_definition, hit_count_is_intersection_size,
                                        ideal_dcg_is_maximum (the nDCG normaliser is the optimum)
    * "the normalised metrics lie in [0, 1]"                       -> normalised_in_unit_interval
@@ -147,6 +147,17 @@ Theorem swap_up_monotone : forall k recs t ids' x y,
        exc_le (ndcg_measure_list k disc true recs t) (ndcg_measure_list k disc true recs' t)).
 Proof. exact swap_up_monotone_l. Qed.
 Print Assumptions swap_up_monotone.
+
+(* the cutoff is POSITIONAL: for a list that carries an explicit rank column ((rank, id) entries) the first k
+   recommendations are the ids of the first k entries whatever ranks they carry; cutting by the stored rank
+   (keep rank <= k) is the same for the implicit ranks 1..n and differs for a column with gaps *)
+Theorem first_k_is_positional :
+  (forall k l, topk k (rl_ids l) = rl_ids (rl_first k l)) /\
+  (forall n ids, rank_cut n (implicit_from 1 ids) = topk (Some n) ids) /\
+  (let l := [(1, 11); (2, 12); (5, 13); (7, 14); (9, 15)]%Z in
+   rank_cut 4 l = [11; 12]%Z /\ topk (Some 4%nat) (rl_ids l) = [11; 12; 13; 14]%Z).
+Proof. exact first_k_is_positional_l. Qed.
+Print Assumptions first_k_is_positional.
 
 (* the hypothesis on the discount: any non-decreasing discount; the shipped np.log2 as evaluated by
    NumPy at ranks 1..256 (continued by its last value); an item outside the test data has gain 0 *)
